@@ -124,6 +124,18 @@ def check_index(ctx, tag, ix, labels, absent, info):
         if hier and labels:
             # a key with more or fewer components than the depth is no label of this hierarchy
             absent = list(absent) + [tuple(labels[0]) + (labels[0][-1],), tuple(labels[-1]) + (0, 0)] + ([tuple(labels[0][:-1])] if len(labels[0]) > 2 else [])
+            # every combination of components that each occur at their depth but not together (ragged fan-out), and integer components just outside those held
+            try:
+                per_depth = [list({pyset_key(t[d]): t[d] for t in labels}.values()) for d in range(len(labels[0]))]
+                held = {tuple(pyset_key(x) for x in t) for t in labels}
+                combos = [c for c in itertools.islice(itertools.product(*per_depth), 400) if tuple(pyset_key(x) for x in c) not in held][:40]
+                last = [t[-1] for t in labels if isinstance(t[-1], (int, np.integer)) and not isinstance(t[-1], (bool, np.bool_))]
+                if last:
+                    for t in labels[:3] + labels[-1:]:
+                        combos += [tuple(t[:-1]) + (int(max(last)) + 1,), tuple(t[:-1]) + (int(max(last)) + 6,), tuple(t[:-1]) + (int(min(last)) - 1,)]
+                absent = absent + combos
+            except TypeError:
+                pass
         # datetime indices: an instant given at a finer resolution (text, date / datetime object, datetime64) inside a held period is not a held label
         if isinstance(ix, sf.Index) and ix.dtype.kind == 'M' and labels:
             import datetime as _dt
